@@ -78,3 +78,62 @@ Definition predict_C16 (c : graph * list nat) : json :=
            JBool (forallb (fun r => match collect fuel g [] r with Some _ => true | None => false end) roots));
         (s "mock_walk_terminates",
            JBool (forallb (fun r => match mock_path fuel g [] r with Some _ => true | None => false end) roots))].
+
+(* ================================================================================================ *)
+(* The path-guarded mock walk on ACYCLIC graphs: cost = number of reference paths                   *)
+(* ================================================================================================ *)
+(* httpgen.generateMockFieldAssignments (mock_generator.go:172-225) and generateMockMapFieldAssignment
+   (:228-283) keep only the messages CURRENTLY being filled (onPath, deleted again on return), not
+   the messages already filled: a message type reached through two fields is filled twice, together
+   with everything below it.  [mock_path] above is that walk; its result is the number of
+   message-field assignments it emits.  On a layered acyclic graph whose every level refers to the
+   next through w followed fields that number is ~ w^depth (TraverseFacts.mock_path_dag2).
+
+   For the correspondence check the walk is evaluated under a step budget ("bounded time" is a
+   wall-clock/memory budget on the plugin process, a step budget in the model, DESIGN §5.C16):
+   [mock_cost] is [mock_path] with the count threaded through as an accumulator and every further
+   edge skipped once the accumulator has passed [lim], so that its evaluation takes O(lim * depth)
+   steps whatever the graph (TraverseFacts.mock_cost_spec relates the two). *)
+Fixpoint mock_cost (fuel : nat) (lim : N) (g : graph) (path : list nat) (n : nat) (acc : N) : N :=
+  match fuel with
+  | O => acc
+  | S f =>
+      let path' := n :: path in
+      fold_left (fun (a : N) (e : nat * bool) =>
+                   if (lim <? a)%N then a
+                   else if snd e then
+                          (if mem_nat (fst e) path' then (a + 1)%N
+                           else mock_cost f lim g path' (fst e) (a + 1)%N)
+                        else (a + 1)%N)
+                (edges_of g n) acc
+  end.
+
+(* the budget: 2^15 message-field assignments.  Measured on the real plugin (width-2 layered
+   response type, 1 GiB address space): 2^13 assignments 0.1 s, 2^17 about 3 s / 25 MB of output,
+   2^19 about 12 s / 100 MB, x2 per level after that. *)
+Definition mock_budget : N := 32768.
+
+Definition mock_over_budget (g : graph) (r : nat) : bool :=
+  (mock_budget <? mock_cost (S (S (List.length g))) mock_budget g [] r 0)%N.
+
+(* the layered graph of width 2 and depth d: node i (i < d) has two singular fields of type i+1 *)
+Definition dag2 (d : nat) : graph :=
+  map (fun i => {| mn_edges := if i <? d then [(S i, true); (S i, true)] else [] |}) (seq 0 (S d)).
+
+(* one case of the correspondence check for the stress families of harness/lib/c16_more.go:
+   (graph, response types of the RPCs, mock?) — mock = the case observes go-http with
+   generate_mock=true under the small budget, otherwise the ten other plugin/parameter variants.
+   mock_failure: how the mock run ended — "none" (answered), "budget" (wall clock or address space
+   exhausted); a run that dies for another reason is observed as "crash" and never predicted *)
+Definition predict_C16b (c : graph * list nat * bool) : json :=
+  let '(g, roots, mock) := c in
+  let fuel := S (S (List.length g)) in
+  if mock then
+    let over := existsb (mock_over_budget g) roots in
+    JObj [(s "tags", jstrs (if over then [s "mock-acyclic-path-blowup"] else []));
+          (s "mock_failure", JStr (if over then s "budget" else s "none"));
+          (s "mock_walk_terminates", JBool (negb over))]
+  else
+    JObj [(s "tags", JArr []);
+          (s "guarded_walk_terminates",
+             JBool (forallb (fun r => match collect fuel g [] r with Some _ => true | None => false end) roots))].
